@@ -9,6 +9,7 @@ import PgVerif.Spec.LR1
 import PgVerif.Spec.Prec
 import PgVerif.Spec.LexRules
 import PgVerif.Model.Actions
+import PgVerif.Model.Recovery
 import PgVerif.Generated.Source
 /-!
 `pgmodel`: line-protocol driver. One request per line (a command word followed
@@ -271,6 +272,12 @@ def handle (st : St) (cmd : String) (args : List Nat) : St × String :=
     | some T, some inp, [consume, lexdis, fuel] =>
       (st, showOutcome (parseLR st.g T inp { consumeInput := consume != 0, lexDis := lexdis != 0 } fuel))
     | _, _, _ => (st, "bad-lr")
+  | "lrrec" =>
+    match st.T, st.inp, args with
+    | some T, some inp, [consume, lexdis, fuel] =>
+      let r := parseLRrec st.g T inp { consumeInput := consume != 0, lexDis := lexdis != 0 } fuel
+      (st, showOutcome r.1 ++ " | " ++ natList (r.2.flatMap (fun x => [x.1, x.2])))
+    | _, _, _ => (st, "bad-lrrec")
   | "tokens" =>
     -- tokens <state> <pos> <consume> <lexdis>
     match st.T, st.inp, args with
